@@ -356,6 +356,15 @@ impl<T: Transport, E: UtpEnvironment> Dispatcher<T, E> {
 
     async fn run_once(&mut self, read_buf: &mut [u8]) -> crate::Result<()> {
         self.cleanup_accept_queue()?;
+        #[cfg(ikatson_librqbit_utp_verif)]
+        crate::verif::emit(|| crate::verif::VerifEvent::SocketTables {
+            local: self.socket.bind_addr(),
+            streams: self.streams.keys().map(|(a, c)| (*a, c.0)).collect(),
+            limit: self.socket.opts.max_active_streams.get(),
+            connecting: self.connecting.values().map(|c| c.len).sum(),
+            cached_syns: self.accept_queue.syns.len(),
+            acceptor_parked: self.accept_queue.next_available_acceptor.is_some(),
+        });
 
         tokio::select! {
             accept = self.accept_queue.rx.recv(), if self.accept_queue.next_available_acceptor.is_none() => {
